@@ -522,6 +522,14 @@ class Gen:
             n = T.size
             opts = [[n], [-1], [1, n], [n, 1]] + [[d, n // d] for d in (2, 3) if n and n % d == 0]
             s = {"k": "setshape", "t": t, "sh": r.choice(opts)}
+            try:
+                probe = T.view()
+                probe.shape = tuple(s["sh"])
+            except Exception:
+                # memory not laid out so that NumPy can re-shape it without copying: a failing statement (C04/C13)
+                s["fail"] = True
+                self.prog.append(s)
+                return True
             return self.emit(s)
         if kind == "setitem":
             x = r.random()
@@ -697,8 +705,14 @@ class Gen:
                  and not any(z != q and self.np.H[z] is self.arr(q) for z in self.np.H)]
             if not c:
                 return False
-            t = r.choice(c)
-            s = {"k": "setshape", "t": t, "sh": r.choice([[self.arr(t).size], [-1], [self.arr(t).size + 1]])}
+            nc = [q for q in c if not self.arr(q).flags.c_contiguous]
+            if nc and r.random() < 0.85:
+                # flattening memory that is not laid out in C order: NumPy refuses (it would have to copy)
+                t = r.choice(nc)
+                s = {"k": "setshape", "t": t, "sh": r.choice([[self.arr(t).size], [-1], [1, self.arr(t).size]])}
+            else:
+                t = r.choice(c)
+                s = {"k": "setshape", "t": t, "sh": r.choice([[self.arr(t).size], [-1], [self.arr(t).size + 1]])}
         elif kind == "aug":
             bad = [d + 2 for d in sh]
             s = {"k": "aug", "t": a, "f": "add", "val": {"arr": {"sh": bad, "v": [R(1)] * int(np.prod(bad))}}}
@@ -711,7 +725,10 @@ class Gen:
         import copy as _copy
 
         probe = Exec("np")
-        probe.H = {q: v.copy() for q, v in self.np.H.items()}
+        if s["k"] == "setshape":
+            probe.H = {q: v.view() for q, v in self.np.H.items()}   # same strides; a new shape on the view object only
+        else:
+            probe.H = {q: v.copy() for q, v in self.np.H.items()}
         try:
             with np.errstate(all="ignore"):
                 probe.run(s)
